@@ -1,8 +1,8 @@
 """C08 - disposables are entered once, exited once, and their cleanup errors surface.
 
 A case is one async scope with 0-4 disposable test doubles. Each double is scripted independently:
-  enter in {ok, gate (ok after a gate), raise, gate-raise}, yield in {None, one State, list of States},
-  exit  in {ok, gate, raise, gate-raise, raise-base (a non-Exception BaseException)}
+  enter in {ok, gate (ok after a gate), raise, gate-raise}, yield in {None, one State, list / tuple of States, empty list, one-shot generator / iterator / map of States},
+  exit  in {ok, gate, raise, gate-raise, raise-base (a non-Exception BaseException), true (returns True without raising)}
 and the body ends by return / raising / an external cancellation delivered inside the body. The order in
 which the gated enters/exits complete is a scheduler choice (DFS over all orders). The doubles log every
 call with its arguments; the harness logs body start/end and what the caller finally caught.
@@ -57,7 +57,7 @@ LEVEL_TEXT = (
 LEVEL_NOTE = "Trusted: the disposable doubles and call-log checker (hv/gen/programs.py, hv/props/c08.py), gate scheduler, VirtualLoop."
 
 ENTERS = ("ok", "gate", "raise", "gate-raise")
-EXITS = ("ok", "gate", "raise", "gate-raise", "raise-base")
+EXITS = ("ok", "gate", "raise", "gate-raise", "raise-base", "true")
 BODIES = ("return", "raise-exc", "cancel-self", "raise-base")
 SAMPLE = {"quick": 2500, "thorough": 40_000}
 DFS_CAP = 130
@@ -84,8 +84,9 @@ def make_block(case: dict[str, Any]) -> dict[str, Any]:
     uid = itertools.count(1)
     ds = []
     for i, (en, ex, y) in enumerate(case["disposables"]):
-        ys = {"none": [], "one": [[("D1", "R1", "BoxInt", "R2")[i % 4], next(uid)]], "list": [["R3", next(uid)], [("D2", "BoxStr")[i % 2], next(uid)]], "empty-list": []}[y]
-        ds.append({"yield": ys, "enter": en, "exit": ex, "form": "list" if y == "list" else ("empty-list" if y == "empty-list" else "auto")})
+        ys = {"none": [], "one": [[("D1", "R1", "BoxInt", "R2")[i % 4], next(uid)]], "list": [["R3", next(uid)], [("D2", "BoxStr")[i % 2], next(uid)]], "empty-list": [],
+              "generator": [["R3", next(uid)], [("D2", "BoxStr")[i % 2], next(uid)]], "iter": [[("D1", "R1", "BoxInt", "R2")[i % 4], next(uid)]], "map": [["R3", next(uid)]], "tuple": [["R3", next(uid)], ["D2", next(uid)]]}[y]
+        ds.append({"yield": ys, "enter": en, "exit": ex, "form": y if y in ("list", "empty-list", "generator", "iter", "map", "tuple") else "auto"})
     return {"op": "block", "kind": "ascope", "name": "blk", "supply": [["SubD1", next(uid)]], "disposables": ds, "body": [{"op": "probe", "id": 1}], "exit": {"kind": case["body"]}, "catch": True}
 
 
@@ -237,14 +238,14 @@ def explore(R: Recorder, case: dict[str, Any], rng: random.Random) -> None:
 
 
 def cases(tier: str, rng: random.Random):  # noqa: ANN201
-    ys = ("none", "one", "list", "empty-list")
+    ys = ("none", "one", "list", "empty-list", "generator", "iter", "map", "tuple")
     maxn = 2 if tier == "quick" else 3
     for body in BODIES:
         yield {"disposables": [], "body": body}
     for n in range(1, maxn + 1):
         for combo in itertools.product(itertools.product(ENTERS, EXITS), repeat=n):
             for body in BODIES[:3] if n >= 2 else BODIES:
-                yield {"disposables": [[en, ex, ys[(i + len(en) + len(ex)) % 4 if n > 1 else (len(en) + 2 * len(ex)) % 4]] for i, (en, ex) in enumerate(combo)], "body": body}
+                yield {"disposables": [[en, ex, ys[(i + len(en) + len(ex)) % 8 if n > 1 else (len(en) + 2 * len(ex)) % 8]] for i, (en, ex) in enumerate(combo)], "body": body}
     for y in ys:
         for body in BODIES:
             yield {"disposables": [["ok", "ok", y]], "body": body}
